@@ -3,6 +3,16 @@
 import json, subprocess
 
 CHECKS = {
+ "C07": dict(
+   technique="bounded-exhaustive enumeration + property-based testing (proptest) against a chart parser that reads grammar.y",
+   text="Differential testing of parse() against a general CFG recogniser with derivation counting that works on the productions read from /repo/grammar.y: every token string up to length 4 (quick) / 5 (thorough) over the 28 token kinds, random longer token strings, proptest-generated sentences with every former in every position and redundant parentheses, and one/two-token mutations of sentences. For sentences gram's tree must equal the unique derivation with the three chain kinds left-associated and lets flattened; every string examined must have at most one derivation. Exhaustive for short strings, sampled beyond.",
+   note="Trusts the harness's grammar reader, chart parser and derivation-to-tree mapping (self-checked: printing a generated tree and reading it back with the chart parser must give the same tree, else exit 2).",
+   ref="DESIGN.md section 3, C07"),
+ "C08": dict(
+   technique="property-based testing (proptest) against a named scope resolver with binder-node identity",
+   text="Generated well-scoped programs (deep nesting, multi-definition groups in every position, re-used sibling names, `_`, context names) are parsed and every Variable(name, index) is checked to point at the binder node a named resolver expects; single-point perturbations (unbound occurrence, re-binding of an enclosing parameter / earlier or later definition / context name) must be rejected with the matching diagnostic. Sampled, not exhaustive.",
+   note="Trusts the named resolver written from the property statement; programs rejected only by the definition-order check are skipped.",
+   ref="DESIGN.md section 3, C08"),
  "C09": dict(
    technique="bounded-exhaustive enumeration + property-based testing (proptest) against a reference lexer",
    text="Differential testing of tokenize() against an independent reference lexer plus range/partition invariants, over every string up to length 6-8 on three class-covering alphabets (tens of millions of strings, exhaustive) and proptest-generated token soups and Unicode texts. Exhaustive for short strings, sampled beyond; it cannot show absence of defects for longer inputs or unlisted character classes.",
